@@ -70,7 +70,9 @@ def to_py(ctx, v):
     if isinstance(v, Int):
         return v.v if isinstance(v.v, int) else str(v.v)
     if isinstance(v, FP):
-        return v.v if isinstance(v.v, float) else str(v.v)
+        if isinstance(v.v, float):
+            return None if (v.v != v.v or v.v in (float('inf'), float('-inf'))) else v.v
+        return str(v.v)
     if isinstance(v, StringObj):
         v = v.as_str()
     if isinstance(v, StrRef):
